@@ -216,6 +216,17 @@ def systematic():
         [task(views=[('A', M)], res=[('RC', True)]), task(views=[('B', M)], res=[('RA', True), ('RC', True)]), task(views=[('C', M)], res=[('RB', False), ('RC', False)])],
     ]
     scheds += multi
+    # tasks that conflict on a component AND on a resource at once (the two staging decisions are
+    # merged; both say "cut")
+    both = [
+        [task(views=[('A', M)], res=[('RA', True)]), task(views=[('A', M)], res=[('RA', True)])],
+        [task(views=[('A', M)], res=[('RA', True)]), task(views=[('A', Rf)], res=[('RA', False)], has_id=True)],
+        [task(views=[('A', Rf)], res=[('RB', False)]), task(par=True, views=[('A', M)], res=[('RB', True)])],
+        [task(views=[('B', Rf)], entry=[('A', M)], res=[('RB', True)]), task(views=[('A', M)], res=[('RA', False), ('RB', False)])],
+        [task(views=[('A', M)], res=[('RA', True)]), task(views=[('B', M)]), task(views=[('A', M), ('B', Rf)], res=[('RA', True)])],
+        [task(par=True, views=[('C', M), ('A', Rf)], res=[('RC', True)]), task(par=True, views=[('A', Rf), ('C', M)], res=[('RB', False), ('RC', True)])],
+    ]
+    scheds += both
     for s in scheds:
         for t in s:
             assert valid(t), t
